@@ -25,6 +25,42 @@ type scenStats struct {
 	reads, writes, browses, notifs, errs    int
 	subs, items, renewWaits, cuts, reconns  int
 	closes, serverSets, modifies, unmonitor int
+	hung                                    int
+}
+
+// subscribeWD calls Client.Subscribe under a watchdog: Subscribe sends on the client's resume channel without
+// looking at the context and blocks for good once the publish loop is gone (a liveness defect that belongs to
+// C27, not to this property); such a call is abandoned (hung = true) and the worker stops subscribing.
+func subscribeWD(ctx context.Context, c *opcua.Client, p *opcua.SubscriptionParameters, ch chan<- *opcua.PublishNotificationData) (sub *opcua.Subscription, err error, hung bool) {
+	type res struct {
+		sub *opcua.Subscription
+		err error
+	}
+	done := make(chan res, 1)
+	go func() {
+		sctx, cancel := context.WithTimeout(ctx, 3*time.Second)
+		defer cancel()
+		s, e := c.Subscribe(sctx, p, ch)
+		done <- res{s, e}
+	}()
+	select {
+	case r := <-done:
+		return r.sub, r.err, false
+	case <-time.After(6 * time.Second):
+		return nil, nil, true
+	}
+}
+
+// waitWG waits for the workers, but not for ever.
+func waitWG(wg *sync.WaitGroup, d time.Duration) bool {
+	done := make(chan struct{})
+	go func() { wg.Wait(); close(done) }()
+	select {
+	case <-done:
+		return true
+	case <-time.After(d):
+		return false
+	}
 }
 
 func (s *scenStats) add(p *int) { s.mu.Lock(); *p++; s.mu.Unlock() }
@@ -32,8 +68,8 @@ func (s *scenStats) add(p *int) { s.mu.Lock(); *p++; s.mu.Unlock() }
 func (s *scenStats) String() string {
 	s.mu.Lock()
 	defer s.mu.Unlock()
-	return fmt.Sprintf("reads=%d writes=%d browses=%d subs=%d items=%d notifs=%d serverSets=%d modifies=%d unmonitor=%d cuts=%d closes=%d errs=%d",
-		s.reads, s.writes, s.browses, s.subs, s.items, s.notifs, s.serverSets, s.modifies, s.unmonitor, s.cuts, s.closes, s.errs)
+	return fmt.Sprintf("reads=%d writes=%d browses=%d subs=%d items=%d notifs=%d serverSets=%d modifies=%d unmonitor=%d cuts=%d closes=%d errs=%d subscribe-hung=%d",
+		s.reads, s.writes, s.browses, s.subs, s.items, s.notifs, s.serverSets, s.modifies, s.unmonitor, s.cuts, s.closes, s.errs, s.hung)
 }
 
 // scenario runs one named workload for about d and returns a summary line.
@@ -44,7 +80,11 @@ func (s *scenStats) String() string {
 //	renew      as mix with a secure channel lifetime of 0.4 s, so that both sides renew the token several times
 //	           while requests are in flight
 //	reconnect  as mix through a TCP proxy that cuts all connections twice; the clients reconnect automatically
+//	scripted   the client against a scripted server that answers ModifySubscription and publishes data (see below)
 func scenario(name string, seed uint64, d time.Duration) (string, error) {
+	if name == "scripted" {
+		return scenarioScripted(seed, d)
+	}
 	rnd := h.NewRand(seed)
 	st := &scenStats{}
 	const nvars = 4
@@ -145,10 +185,36 @@ func scenario(name string, seed uint64, d time.Duration) (string, error) {
 				}
 			}()
 			defer close(done)
+			// The first subscription stays alive with all variables monitored (steady notification traffic);
+			// two more are created and cancelled, after that the worker churns monitored items on the first
+			// one.  (More Subscribe calls would block: every Subscribe puts a token on the client's resume
+			// channel, capacity 2, which only a paused publish loop takes off.)
+			var base *opcua.Subscription
+			cycles := 0
 			for !stopped() {
-				sctx, cancel := context.WithTimeout(ctx, 3*time.Second)
-				sub, err := c.Subscribe(sctx, &opcua.SubscriptionParameters{Interval: 20 * time.Millisecond}, ch)
-				cancel()
+				if base != nil && cycles >= 3 {
+					mctx, cancel := context.WithTimeout(ctx, 3*time.Second)
+					res, err := base.Monitor(mctx, ua.TimestampsToReturnBoth, opcua.NewMonitoredItemCreateRequestWithDefaults(srv.NodeID(sr.Intn(nvars)), ua.AttributeIDValue, uint32(100+sr.Intn(50))))
+					cancel()
+					_ = c.SubscriptionIDs()
+					time.Sleep(time.Duration(10+sr.Intn(40)) * time.Millisecond)
+					if err == nil && len(res.Results) == 1 {
+						st.add(&st.items)
+						mctx, cancel := context.WithTimeout(ctx, 3*time.Second)
+						if _, err := base.Unmonitor(mctx, res.Results[0].MonitoredItemID); err == nil {
+							st.add(&st.unmonitor)
+						}
+						cancel()
+					} else {
+						st.add(&st.errs)
+					}
+					continue
+				}
+				sub, err, hung := subscribeWD(ctx, c, &opcua.SubscriptionParameters{Interval: 20 * time.Millisecond}, ch)
+				if hung {
+					st.add(&st.hung)
+					return
+				}
 				if err != nil {
 					st.add(&st.errs)
 					time.Sleep(20 * time.Millisecond)
@@ -164,6 +230,11 @@ func scenario(name string, seed uint64, d time.Duration) (string, error) {
 						ids = append(ids, res.Results[0].MonitoredItemID)
 						st.add(&st.items)
 					}
+				}
+				cycles++
+				if base == nil {
+					base = sub
+					continue
 				}
 				life := time.Duration(100+sr.Intn(300)) * time.Millisecond
 				t0 := time.Now()
@@ -228,12 +299,207 @@ func scenario(name string, seed uint64, d time.Duration) (string, error) {
 	st.add(&st.closes)
 	time.Sleep(50 * time.Millisecond)
 	close(stop)
-	wg.Wait()
+	if !waitWG(&wg, 20*time.Second) {
+		return "", fmt.Errorf("workers did not stop: %s", st.String())
+	}
 	for _, c := range clients[1:] {
 		cctx, cancel := context.WithTimeout(ctx, 3*time.Second)
 		c.Close(cctx)
 		cancel()
 		st.add(&st.closes)
 	}
+	return st.String(), nil
+}
+
+// scenarioScripted drives the CLIENT against a scripted server (real uacp/uasc underneath) that, unlike the
+// gopcua server, answers ModifySubscription and publishes data for every live subscription: two clients, per
+// client one shared subscription that three goroutines modify / monitor / inspect while the publish loop runs,
+// short-lived extra subscriptions, and two connection drops (the clients reconnect and recreate or restore
+// their subscriptions).
+func scenarioScripted(seed uint64, d time.Duration) (string, error) {
+	rnd := h.NewRand(seed)
+	st := &scenStats{}
+	var mu sync.Mutex
+	live := map[uint32]uint32{} // subscription id -> last sequence number
+	var order []uint32
+	srv, err := xsubs.StartScripted(func(s *xsubs.Scripted, c *xsubs.SConn, reqID uint32, r ua.Request) ua.Response {
+		switch req := r.(type) {
+		case *ua.ModifySubscriptionRequest:
+			return &ua.ModifySubscriptionResponse{ResponseHeader: xsubs.Hdr(r, ua.StatusOK), RevisedPublishingInterval: req.RequestedPublishingInterval,
+				RevisedLifetimeCount: req.RequestedLifetimeCount, RevisedMaxKeepAliveCount: req.RequestedMaxKeepAliveCount}
+		case *ua.DeleteMonitoredItemsRequest:
+			return &ua.DeleteMonitoredItemsResponse{ResponseHeader: xsubs.Hdr(r, ua.StatusOK), Results: make([]ua.StatusCode, len(req.MonitoredItemIDs)), DiagnosticInfos: []*ua.DiagnosticInfo{}}
+		case *ua.CreateSubscriptionRequest:
+			resp := s.Default(r)
+			if cr, ok := resp.(*ua.CreateSubscriptionResponse); ok {
+				mu.Lock()
+				live[cr.SubscriptionID] = 0
+				order = append(order, cr.SubscriptionID)
+				mu.Unlock()
+			}
+			return resp
+		case *ua.DeleteSubscriptionsRequest:
+			mu.Lock()
+			for _, id := range req.SubscriptionIDs {
+				delete(live, id)
+			}
+			mu.Unlock()
+			return s.Default(r)
+		case *ua.PublishRequest:
+			results := make([]ua.StatusCode, len(req.SubscriptionAcknowledgements))
+			go func() {
+				time.Sleep(3 * time.Millisecond)
+				mu.Lock()
+				var id, seq uint32
+				for i := len(order) - 1; i >= 0 && id == 0; i-- {
+					if _, ok := live[order[(i+int(reqID))%len(order)]]; ok {
+						id = order[(i+int(reqID))%len(order)]
+					}
+				}
+				if id != 0 {
+					live[id]++
+					seq = live[id]
+				}
+				mu.Unlock()
+				if id == 0 {
+					time.Sleep(20 * time.Millisecond)
+					c.Reply(reqID, xsubs.Fault(r, ua.StatusBadNoSubscription))
+					return
+				}
+				c.Reply(reqID, xsubs.DataResponse(r, id, seq, 1, results, 1, int32(seq)))
+			}()
+			return nil
+		}
+		return s.Default(r)
+	})
+	if err != nil {
+		return "", fmt.Errorf("scripted server: %v", err)
+	}
+	defer srv.Close()
+	ctx, cancelAll := context.WithCancel(context.Background())
+	defer cancelAll()
+	var clients []*opcua.Client
+	for i := 0; i < 2; i++ {
+		c, err := opcua.NewClient(srv.URL(), opcua.SecurityMode(ua.MessageSecurityModeNone), opcua.RequestTimeout(2*time.Second),
+			opcua.AutoReconnect(true), opcua.ReconnectInterval(30*time.Millisecond), opcua.DialTimeout(2*time.Second))
+		if err == nil {
+			cctx, cancel := context.WithTimeout(ctx, 10*time.Second)
+			err = c.Connect(cctx)
+			cancel()
+		}
+		if err != nil {
+			return "", fmt.Errorf("client connect: %v", err)
+		}
+		clients = append(clients, c)
+	}
+	stop := make(chan struct{})
+	stopped := func() bool {
+		select {
+		case <-stop:
+			return true
+		default:
+			return false
+		}
+	}
+	var wg sync.WaitGroup
+	for _, c := range clients {
+		ch := make(chan *opcua.PublishNotificationData, 256)
+		wg.Add(1)
+		go func() {
+			defer wg.Done()
+			for {
+				select {
+				case <-ch:
+					st.add(&st.notifs)
+				case <-stop:
+					return
+				}
+			}
+		}()
+		shared, err, hung := subscribeWD(ctx, c, &opcua.SubscriptionParameters{Interval: 10 * time.Millisecond}, ch)
+		if err != nil || hung {
+			close(stop)
+			return "", fmt.Errorf("subscribe: %v (hung=%v)", err, hung)
+		}
+		st.add(&st.subs)
+		for w := 0; w < 3; w++ {
+			wg.Add(1)
+			wr := rnd.Fork()
+			go func(w int, c *opcua.Client) {
+				defer wg.Done()
+				for k := 0; !stopped(); k++ {
+					rctx, cancel := context.WithTimeout(ctx, 2*time.Second)
+					var err error
+					switch wr.Intn(5) {
+					case 0, 1:
+						_, err = shared.ModifySubscription(rctx, opcua.SubscriptionParameters{Interval: time.Duration(5+wr.Intn(20)) * time.Millisecond})
+						if err == nil {
+							st.add(&st.modifies)
+						}
+					case 2:
+						var res *ua.CreateMonitoredItemsResponse
+						res, err = shared.Monitor(rctx, ua.TimestampsToReturnBoth, opcua.NewMonitoredItemCreateRequestWithDefaults(ua.NewNumericNodeID(2, uint32(k)), ua.AttributeIDValue, 1))
+						if err == nil {
+							st.add(&st.items)
+							if len(res.Results) == 1 && wr.Chance(50) {
+								if _, err2 := shared.Unmonitor(rctx, res.Results[0].MonitoredItemID); err2 == nil {
+									st.add(&st.unmonitor)
+								}
+							}
+						}
+					case 3:
+						_ = c.SubscriptionIDs()
+						_, err = c.Read(rctx, &ua.ReadRequest{NodesToRead: []*ua.ReadValueID{{NodeID: ua.NewNumericNodeID(2, 1), AttributeID: ua.AttributeIDValue}}})
+						st.add(&st.reads)
+					default:
+						var sub *opcua.Subscription
+						var hung bool
+						sub, err, hung = subscribeWD(ctx, c, &opcua.SubscriptionParameters{Interval: 10 * time.Millisecond}, ch)
+						if hung {
+							st.add(&st.hung)
+							cancel()
+							return
+						}
+						if err == nil {
+							st.add(&st.subs)
+							time.Sleep(time.Duration(wr.Intn(30)) * time.Millisecond)
+							sub.Cancel(rctx)
+						}
+					}
+					cancel()
+					if err != nil {
+						st.add(&st.errs)
+						time.Sleep(3 * time.Millisecond)
+					}
+				}
+			}(w, c)
+		}
+	}
+	wg.Add(1)
+	go func() {
+		defer wg.Done()
+		for i := 0; i < 2; i++ {
+			select {
+			case <-stop:
+				return
+			case <-time.After(d / 3):
+			}
+			srv.DropConns()
+			st.add(&st.cuts)
+		}
+	}()
+	time.Sleep(d)
+	cctx, cancel := context.WithTimeout(ctx, 3*time.Second)
+	clients[0].Close(cctx)
+	cancel()
+	st.add(&st.closes)
+	close(stop)
+	if !waitWG(&wg, 20*time.Second) {
+		return "", fmt.Errorf("workers did not stop: %s", st.String())
+	}
+	cctx, cancel = context.WithTimeout(ctx, 3*time.Second)
+	clients[1].Close(cctx)
+	cancel()
+	st.add(&st.closes)
 	return st.String(), nil
 }
